@@ -1,0 +1,455 @@
+//! Verification seams (only compiled with the cargo feature `verif`, which is off by default).
+//!
+//! With the feature enabled, the crate uses [`RwLock`] from this module instead of
+//! `parking_lot::RwLock`, and [`DetSet`] instead of `std::collections::HashSet`.
+//!
+//! - [`RwLock`] wraps a real `parking_lot::RwLock`. Before every acquisition and after every
+//!   release it calls out to an installed [`SimHooks`] object, which decides (as a simulator of
+//!   the lock's blocking policy) if and when the acquisition is granted. If no hooks are
+//!   installed, or the hooks answer [`Decision::PassThrough`], the call goes straight to
+//!   `parking_lot` and behaves exactly like the unhooked crate.
+//! - [`DetSet`] is an insertion-ordered set, so that iteration order (and with it the order
+//!   of lock acquisitions) does not depend on `RandomState` or on pointer values.
+//!
+//! Nothing in here changes the behaviour of the crate when the feature is disabled.
+
+#![allow(missing_docs)]
+
+use std::ops::{Deref, DerefMut};
+use std::panic::Location;
+use std::sync::OnceLock;
+use std::sync::atomic::{AtomicU64, Ordering};
+use std::time::Duration;
+
+/// Which kind of object a lock protects
+#[derive(Debug, Clone, Copy, PartialEq, Eq, Hash, PartialOrd, Ord)]
+pub enum LockClass {
+    Model,
+    File,
+    Element,
+    Other,
+}
+
+/// Requested access mode
+#[derive(Debug, Clone, Copy, PartialEq, Eq, Hash, PartialOrd, Ord)]
+pub enum LockMode {
+    Read,
+    Write,
+}
+
+/// How the caller is prepared to wait
+#[derive(Debug, Clone, Copy, PartialEq, Eq, Hash, PartialOrd, Ord)]
+pub enum LockKind {
+    /// `read()` / `write()`
+    Blocking,
+    /// `try_read()` / `try_write()`
+    Try,
+    /// `try_read_for(d)` / `try_write_for(d)`
+    Timed(Duration),
+}
+
+/// Answer of the simulator to an acquisition request
+#[derive(Debug, Clone, Copy, PartialEq, Eq)]
+pub enum Decision {
+    /// The lock is logically granted; the shim takes the real lock with a non-blocking call, which must succeed
+    Granted,
+    /// The acquisition fails (try-lock failed or timed lock ran into its time-out)
+    Failed,
+    /// The simulator does not manage the calling thread: behave like plain `parking_lot`
+    PassThrough,
+}
+
+/// Description of one acquisition request
+#[derive(Debug, Clone, Copy)]
+pub struct LockRequest {
+    pub id: u64,
+    pub class: LockClass,
+    pub mode: LockMode,
+    pub kind: LockKind,
+    pub site: &'static Location<'static>,
+}
+
+/// The interface a simulator implements
+pub trait SimHooks: Sync + Send {
+    /// Called before an acquisition. May block the calling thread (inside the simulator) until the request is decided.
+    fn acquire(&self, req: &LockRequest) -> Decision;
+    /// Called after a lock which was acquired with `Decision::Granted` has really been released
+    fn release(&self, id: u64, class: LockClass, mode: LockMode);
+    /// Called if the real lock refuses an acquisition that the simulator granted. Must not return normally with a verdict.
+    fn mismatch(&self, req: &LockRequest) -> !;
+}
+
+static HOOKS: OnceLock<&'static dyn SimHooks> = OnceLock::new();
+static NEXT_LOCK_ID: AtomicU64 = AtomicU64::new(1);
+
+/// Install the simulator. Can be done once per process; returns false if hooks were already installed.
+pub fn install_hooks(hooks: &'static dyn SimHooks) -> bool {
+    HOOKS.set(hooks).is_ok()
+}
+
+/// Reset the lock id counter (ids are handed out in creation order, starting with `first`)
+pub fn reset_lock_ids(first: u64) {
+    NEXT_LOCK_ID.store(first, Ordering::SeqCst);
+}
+
+/// The id the next created lock will get
+pub fn peek_next_lock_id() -> u64 {
+    NEXT_LOCK_ID.load(Ordering::SeqCst)
+}
+
+#[inline]
+fn hooks() -> Option<&'static dyn SimHooks> {
+    HOOKS.get().copied()
+}
+
+fn class_of<T>() -> LockClass {
+    let name = std::any::type_name::<T>();
+    if name.ends_with("ElementRaw") {
+        LockClass::Element
+    } else if name.ends_with("AutosarModelRaw") {
+        LockClass::Model
+    } else if name.ends_with("ArxmlFileRaw") {
+        LockClass::File
+    } else {
+        LockClass::Other
+    }
+}
+
+/// Drop-in replacement for the subset of `parking_lot::RwLock` that this crate uses
+pub struct RwLock<T> {
+    id: u64,
+    class: LockClass,
+    inner: parking_lot::RwLock<T>,
+}
+
+pub struct RwLockReadGuard<'a, T> {
+    // the Option is only None during drop
+    inner: Option<parking_lot::RwLockReadGuard<'a, T>>,
+    id: u64,
+    class: LockClass,
+    managed: bool,
+}
+
+pub struct RwLockWriteGuard<'a, T> {
+    inner: Option<parking_lot::RwLockWriteGuard<'a, T>>,
+    id: u64,
+    class: LockClass,
+    managed: bool,
+}
+
+impl<T> RwLock<T> {
+    pub fn new(value: T) -> Self {
+        Self {
+            id: NEXT_LOCK_ID.fetch_add(1, Ordering::SeqCst),
+            class: class_of::<T>(),
+            inner: parking_lot::RwLock::new(value),
+        }
+    }
+
+    /// The id of this lock (creation order)
+    pub fn verif_id(&self) -> u64 {
+        self.id
+    }
+
+    #[inline]
+    fn decide(&self, mode: LockMode, kind: LockKind, site: &'static Location<'static>) -> (Decision, LockRequest) {
+        let req = LockRequest {
+            id: self.id,
+            class: self.class,
+            mode,
+            kind,
+            site,
+        };
+        match hooks() {
+            Some(h) => (h.acquire(&req), req),
+            None => (Decision::PassThrough, req),
+        }
+    }
+
+    fn granted_read(&self, req: &LockRequest) -> RwLockReadGuard<'_, T> {
+        match self.inner.try_read() {
+            Some(guard) => RwLockReadGuard {
+                inner: Some(guard),
+                id: self.id,
+                class: self.class,
+                managed: true,
+            },
+            None => hooks().unwrap().mismatch(req),
+        }
+    }
+
+    fn granted_write(&self, req: &LockRequest) -> RwLockWriteGuard<'_, T> {
+        match self.inner.try_write() {
+            Some(guard) => RwLockWriteGuard {
+                inner: Some(guard),
+                id: self.id,
+                class: self.class,
+                managed: true,
+            },
+            None => hooks().unwrap().mismatch(req),
+        }
+    }
+
+    fn plain_read<'a>(&'a self, guard: parking_lot::RwLockReadGuard<'a, T>) -> RwLockReadGuard<'a, T> {
+        RwLockReadGuard {
+            inner: Some(guard),
+            id: self.id,
+            class: self.class,
+            managed: false,
+        }
+    }
+
+    fn plain_write<'a>(&'a self, guard: parking_lot::RwLockWriteGuard<'a, T>) -> RwLockWriteGuard<'a, T> {
+        RwLockWriteGuard {
+            inner: Some(guard),
+            id: self.id,
+            class: self.class,
+            managed: false,
+        }
+    }
+
+    #[track_caller]
+    pub fn read(&self) -> RwLockReadGuard<'_, T> {
+        let (decision, req) = self.decide(LockMode::Read, LockKind::Blocking, Location::caller());
+        match decision {
+            Decision::Granted => self.granted_read(&req),
+            // a blocking acquisition cannot fail; a simulator that says so is broken
+            Decision::Failed => hooks().unwrap().mismatch(&req),
+            Decision::PassThrough => self.plain_read(self.inner.read()),
+        }
+    }
+
+    #[track_caller]
+    pub fn write(&self) -> RwLockWriteGuard<'_, T> {
+        let (decision, req) = self.decide(LockMode::Write, LockKind::Blocking, Location::caller());
+        match decision {
+            Decision::Granted => self.granted_write(&req),
+            Decision::Failed => hooks().unwrap().mismatch(&req),
+            Decision::PassThrough => self.plain_write(self.inner.write()),
+        }
+    }
+
+    #[track_caller]
+    pub fn try_read(&self) -> Option<RwLockReadGuard<'_, T>> {
+        let (decision, req) = self.decide(LockMode::Read, LockKind::Try, Location::caller());
+        match decision {
+            Decision::Granted => Some(self.granted_read(&req)),
+            Decision::Failed => None,
+            Decision::PassThrough => self.inner.try_read().map(|g| self.plain_read(g)),
+        }
+    }
+
+    #[track_caller]
+    pub fn try_write(&self) -> Option<RwLockWriteGuard<'_, T>> {
+        let (decision, req) = self.decide(LockMode::Write, LockKind::Try, Location::caller());
+        match decision {
+            Decision::Granted => Some(self.granted_write(&req)),
+            Decision::Failed => None,
+            Decision::PassThrough => self.inner.try_write().map(|g| self.plain_write(g)),
+        }
+    }
+
+    #[track_caller]
+    pub fn try_read_for(&self, timeout: Duration) -> Option<RwLockReadGuard<'_, T>> {
+        let (decision, req) = self.decide(LockMode::Read, LockKind::Timed(timeout), Location::caller());
+        match decision {
+            Decision::Granted => Some(self.granted_read(&req)),
+            Decision::Failed => None,
+            Decision::PassThrough => self.inner.try_read_for(timeout).map(|g| self.plain_read(g)),
+        }
+    }
+
+    #[track_caller]
+    pub fn try_write_for(&self, timeout: Duration) -> Option<RwLockWriteGuard<'_, T>> {
+        let (decision, req) = self.decide(LockMode::Write, LockKind::Timed(timeout), Location::caller());
+        match decision {
+            Decision::Granted => Some(self.granted_write(&req)),
+            Decision::Failed => None,
+            Decision::PassThrough => self.inner.try_write_for(timeout).map(|g| self.plain_write(g)),
+        }
+    }
+}
+
+impl<T> Deref for RwLockReadGuard<'_, T> {
+    type Target = T;
+    #[inline]
+    fn deref(&self) -> &T {
+        self.inner.as_ref().unwrap()
+    }
+}
+
+impl<T> Deref for RwLockWriteGuard<'_, T> {
+    type Target = T;
+    #[inline]
+    fn deref(&self) -> &T {
+        self.inner.as_ref().unwrap()
+    }
+}
+
+impl<T> DerefMut for RwLockWriteGuard<'_, T> {
+    #[inline]
+    fn deref_mut(&mut self) -> &mut T {
+        self.inner.as_mut().unwrap()
+    }
+}
+
+impl<T> Drop for RwLockReadGuard<'_, T> {
+    fn drop(&mut self) {
+        // release the real lock first, then tell the simulator
+        drop(self.inner.take());
+        if self.managed {
+            if let Some(h) = hooks() {
+                h.release(self.id, self.class, LockMode::Read);
+            }
+        }
+    }
+}
+
+impl<T> Drop for RwLockWriteGuard<'_, T> {
+    fn drop(&mut self) {
+        drop(self.inner.take());
+        if self.managed {
+            if let Some(h) = hooks() {
+                h.release(self.id, self.class, LockMode::Write);
+            }
+        }
+    }
+}
+
+/// Insertion-ordered set with the subset of the `HashSet` API that this crate uses.
+///
+/// The sets in this crate hold the files an element belongs to (a handful at most), so the linear search is irrelevant.
+#[derive(Clone)]
+pub struct DetSet<T> {
+    items: Vec<T>,
+}
+
+impl<T: PartialEq> DetSet<T> {
+    pub fn new() -> Self {
+        Self { items: Vec::new() }
+    }
+
+    pub fn with_capacity(capacity: usize) -> Self {
+        Self {
+            items: Vec::with_capacity(capacity),
+        }
+    }
+
+    pub fn insert(&mut self, value: T) -> bool {
+        if self.items.contains(&value) {
+            false
+        } else {
+            self.items.push(value);
+            true
+        }
+    }
+
+    pub fn remove(&mut self, value: &T) -> bool {
+        if let Some(pos) = self.items.iter().position(|item| item == value) {
+            self.items.remove(pos);
+            true
+        } else {
+            false
+        }
+    }
+
+    pub fn contains(&self, value: &T) -> bool {
+        self.items.contains(value)
+    }
+
+    pub fn is_empty(&self) -> bool {
+        self.items.is_empty()
+    }
+
+    pub fn len(&self) -> usize {
+        self.items.len()
+    }
+
+    pub fn clear(&mut self) {
+        self.items.clear();
+    }
+
+    pub fn iter(&self) -> std::slice::Iter<'_, T> {
+        self.items.iter()
+    }
+}
+
+impl<T: PartialEq> Default for DetSet<T> {
+    fn default() -> Self {
+        Self::new()
+    }
+}
+
+impl<T: PartialEq> FromIterator<T> for DetSet<T> {
+    fn from_iter<I: IntoIterator<Item = T>>(iter: I) -> Self {
+        let mut set = Self::new();
+        for item in iter {
+            set.insert(item);
+        }
+        set
+    }
+}
+
+impl<'a, T> IntoIterator for &'a DetSet<T> {
+    type Item = &'a T;
+    type IntoIter = std::slice::Iter<'a, T>;
+    fn into_iter(self) -> Self::IntoIter {
+        self.items.iter()
+    }
+}
+
+impl<T> IntoIterator for DetSet<T> {
+    type Item = T;
+    type IntoIter = std::vec::IntoIter<T>;
+    fn into_iter(self) -> Self::IntoIter {
+        self.items.into_iter()
+    }
+}
+
+impl<T: std::fmt::Debug> std::fmt::Debug for DetSet<T> {
+    fn fmt(&self, f: &mut std::fmt::Formatter<'_>) -> std::fmt::Result {
+        f.debug_set().entries(self.items.iter()).finish()
+    }
+}
+
+impl<T: PartialEq> PartialEq for DetSet<T> {
+    fn eq(&self, other: &Self) -> bool {
+        self.items.len() == other.items.len() && self.items.iter().all(|item| other.items.contains(item))
+    }
+}
+
+impl<T: Eq> Eq for DetSet<T> {}
+
+// ---- read-only accessors for the verification harness ----
+
+impl crate::AutosarModel {
+    /// all keys of the reverse reference map, sorted
+    #[must_use]
+    pub fn verif_reference_origin_keys(&self) -> Vec<String> {
+        let mut keys: Vec<String> = self.0.read().reference_origins.keys().cloned().collect();
+        keys.sort();
+        keys
+    }
+
+    /// id of the lock that protects the model
+    #[must_use]
+    pub fn verif_lock_id(&self) -> u64 {
+        self.0.verif_id()
+    }
+}
+
+impl crate::ArxmlFile {
+    /// id of the lock that protects this file
+    #[must_use]
+    pub fn verif_lock_id(&self) -> u64 {
+        self.0.verif_id()
+    }
+}
+
+impl crate::Element {
+    /// id of the lock that protects this element
+    #[must_use]
+    pub fn verif_lock_id(&self) -> u64 {
+        self.0.verif_id()
+    }
+}
